@@ -6,5 +6,20 @@ ENGINES = [
  dict(name='driver', path='driver/', serves_properties=['C01', 'C02'], kind_free_text='native replay driver (never a deciding step)'),
 ]
 NOTES = 'Solver-based checking of the real code: see DESIGN.md. Exit codes: 0 held, 1 reproduced violation, 2 inconclusive/machinery.'
-CHECKS = {}
+INTERP_NOTE = ('Trusted: rustc MIR as the meaning of the source; mirsym intrinsic table; z3; the reference semantics transcribed from the '
+               'statement. Assumed: Rust slice/allocation facts (no wrap, non-null, stack allocation disjoint), environment stubs listed in evidence. '
+               'Single-step obligations have no step bound; lifting to whole runs is induction on executed instructions (paper step).')
+CHECKS = {
+ 'C01': dict(level='model_checking', engine='mirsym', design_ref='DESIGN.md 5/C01',
+   technique='symbolic execution of the MIR of interpreter::execute_program (one loop iteration from an arbitrary state) + z3 equivalence with a reference ISA semantics, per opcode, all operands',
+   text='For each of the 122 verifier-accepted opcodes the interpreter arm is executed symbolically from a havocked loop-head state (all registers, pc < 10^6, '
+        'all immediates/offsets, dst/src as symbolic nibbles, call depth 0..8) and z3 shows registers, pc, memory and frame state equal the reference semantics on every path, '
+        'in the dev profile (overflow checks are panics) and the release profile (wrapping). Counterexamples are replayed as whole programs through the public API.',
+   note=INTERP_NOTE),
+ 'C02': dict(level='model_checking', engine='mirsym', design_ref='DESIGN.md 5/C02',
+   technique='symbolic execution of the MIR of execute_program/check_mem with an access log + z3 containment obligations over symbolic region layouts',
+   text='For every load/store/atomic instruction and width: every access actually performed lies wholly inside packet, metadata buffer, stack or a registered range; an access wholly inside a region is never refused; '
+        'a refused access returns Err with an empty write log and never panics; the address is reg+sext(off) (packet+imm[+src]). Region bases/lengths and 2 (quick) / 3 (thorough) registered ranges are symbolic.',
+   note=INTERP_NOTE),
+}
 NOT_APPLICABLE = {}
